@@ -28,6 +28,7 @@ def cases(draw, max_steps=14):
         scn["forcing"]["packed"] = draw(st.sampled_from([0.4, 0.7, 0.95]))
         scn["forcing"]["temp"] = False
         scn["pvars"] = [v for v in scn["pvars"] if v != "temp"]
+    scn["grid"]["metric"] = draw(st.sampled_from([None, "varying"]))  # cell sizes that differ between cells
     return scn
 
 
@@ -64,7 +65,7 @@ def oracle(scn) -> core.CaseResult:
         # both runs compute in 32-bit floats and interpolate in time from opposite ends: per step a velocity
         # difference of a few (gap + 4) float32 roundings of |u| <= 2 m/s, accumulated over the run
         res.cls("velocity_packed_full_int16_range")
-        tol = 4 * (max(scn["forcing"]["gaps"]) + 4) * 2.0**-23 * 2.0 * (sim.DT / sim.DX) * (scn["time"]["nsteps"] + 1)
+        tol = 4 * (max(scn["forcing"]["gaps"]) + 4) * 2.0**-23 * 2.0 * (2 * sim.DT / sim.DX) * (scn["time"]["nsteps"] + 1)
     dt = np.timedelta64(sim.DT, "s")
     p = scn["output"]["period"]
     res.check(len(A) == len(B), "record_count", f"{len(A)} records reversed, {len(B)} forward")
